@@ -196,7 +196,7 @@ def random_tm(rng, nmax=4, halting_start=0.1):
     Q = work + [qa, qr]
     Sigma = rng.choice([['a'], ['a', 'b'], ['0', '1'], []])
     blank = rng.choice(['_', '□', 'B'])
-    Gamma = list(Sigma) + [blank] + rng.choice([[], ['x'], ['x', 'y']])
+    Gamma = list(Sigma) + [blank] + rng.choice([[], ['x'], ['x', 'y'], ['%'], ['#', '%'], ['$', '&']])
     delta = []
     dens = rng.choice([0.4, 0.7, 0.95])
     for p in work:
@@ -271,7 +271,7 @@ def random_pda(rng, nmax=3, tmax=6, markers=False):
     Sigma = rng.choice([['a', 'b'], ['a'], ['a', 'b'], ['0', '1']])
     Gamma = rng.choice([['x'], ['x', 'y'], ['x', 'y'], ['A', 'B']])
     if markers and rng.random() < 0.5:
-        Gamma = Gamma + rng.choice([['$'], ['$', '@'], ['∅'], ['#']])
+        Gamma = Gamma + rng.choice([['$'], ['$', '@'], ['∅'], ['#'], ['%'], ['%', '&'], ['!', '~'], ['^', '*']])
     eps = rng.choice(['_', '_', 'ε', ''])
     delta = {}
     style = rng.random()
@@ -502,3 +502,26 @@ def pop_loop_pda(rng):
     d = [[p, b, u, sorted([list(t) for t in T])] for (p, b, u), T in delta.items()]
     rng.shuffle(d)
     return {'Q': names, 'Sigma': Sigma, 'Gamma': sorted({'x', m}), 'delta': d, 'q0': q0, 'F': F, 'eps': eps, 'dd': True}
+
+
+def near_cnf_cfg(rng):
+    """every RULE has a Chomsky shape (A -> BC, A -> a, A -> epsilon) but the GRAMMAR is not in Chomsky normal form: an epsilon rule of a
+    non-start variable and / or the start variable on a right-hand side"""
+    V = ['S', 'A', 'B', 'C'][:rng.randint(2, 4)]
+    Sigma = rng.choice([['a', 'b'], ['a']])
+    R = []
+    for A in V:
+        for _ in range(rng.randint(1, 3)):
+            p = rng.random()
+            if p < 0.4:
+                rhs = [['t', rng.choice(Sigma)]]
+            elif p < 0.55:
+                rhs = []
+            else:
+                rhs = [['v', rng.choice(V)], ['v', rng.choice(V)]]
+            if [A, rhs] not in [[r[0], r[2]] for r in R]:
+                R.append([A, len(R), rhs])
+    if not any(r[0] != 'S' and not r[2] for r in R) and rng.random() < 0.7:
+        R.append([rng.choice(V[1:]), len(R), []])
+    used = sorted({n for _, _, rhs in R for k, n in rhs if k == 't'}) or [Sigma[0]]
+    return {'V': V, 'Sigma': used, 'R': R, 'S': 'S'}
